@@ -471,10 +471,21 @@ WantClauses(c, S) ==
 BuildProps == <<"C01", "C02", "C04", "C05", "C06", "C07", "C08", "C09">>
 BuildClauses == Tag([i \in DOMAIN BuildProps |-> Cl(BuildProps[i] \o ".Build", TRUE, FALSE)], "", "")
 
+\* a system solved after an edit (solve - edit - solve): the supply inputs of every mux are the ones the documented
+\* effect of the edit yields (SysTree!OpEff), in the same priority order
+EditClauses(c, S) ==
+  IF ~c.hasedit THEN <<>>
+  ELSE LET pre == StateOfJ(c.edit.pre)
+           eff == OpEff(pre, c.edit.op, c.edit.args)
+       IN Tag(<< Cl("C05.InputOrderAfterEdit", WellFormed(pre) /\ OpOK(pre, c.edit.op, c.edit.args) /\ Muxes(pre) # {},
+                    /\ Names(S) = DOMAIN eff.comps
+                    /\ \A m \in Muxes(S) : S.par[m] = eff.par[m]) >>, "", "")
+
 CaseClauses(c, S) ==
-  IF ~c.built THEN BuildClauses ELSE
-  IF ~Modelled(S) THEN Tag(<< Cl("note.Unmodelled", TRUE, FALSE) >>, "", "") \o WantClauses(c, S)
-  ELSE SolveClauses1(c, S, c.args) \o WantClauses(c, S)
+  IF ~c.built THEN BuildClauses
+  ELSE EditClauses(c, S) \o WantClauses(c, S) \o
+       (IF ~Modelled(S) THEN Tag(<< Cl("note.Unmodelled", TRUE, FALSE) >>, "", "")
+        ELSE SolveClauses1(c, S, c.args))
 
 AllClauseNames ==
   {"C01.Link.Vin", "C01.SourceVin", "C01.Link.Iout", "C01.Law.Vout", "C01.Law.Iin",
@@ -492,7 +503,7 @@ AllClauseNames ==
    "C10.Value.Vout", "C10.Value.Iin", "C11.LossNonNeg", "C11.EffLe100", "C11.PassiveNoGain",
    "driver.DesignedOK", "C03.FindsModest", "C03.Residual.Vout", "C03.Residual.Iin",
    "C06.PhaseValue", "C06.SleepValue", "C06.ActiveList", "C06.NoConfig", "C06.SinglePhaseEqualsSlice",
-   "C06.UnknownPhase", "C01.Build", "C02.Build", "C04.Build", "C05.Build", "C06.Build", "C07.Build", "C08.Build", "C09.Build", "C08.RailsAsAssigned", "C05.InputsAsDeclared", "C07.SourcesAsBuilt", "C06.ConfAsConfigured", "C08.NoException", "C08.NoRails", "C08.None", "C08.RailSet", "C08.Voltage", "C08.Sums", "C08.Warnings"}
+   "C06.UnknownPhase", "C05.InputOrderAfterEdit", "C01.Build", "C02.Build", "C04.Build", "C05.Build", "C06.Build", "C07.Build", "C08.Build", "C09.Build", "C08.RailsAsAssigned", "C05.InputsAsDeclared", "C07.SourcesAsBuilt", "C06.ConfAsConfigured", "C08.NoException", "C08.NoRails", "C08.None", "C08.RailSet", "C08.Voltage", "C08.Sums", "C08.Warnings"}
 
 Init == ci = 1 /\ verd = <<>> /\ stat = [c \in AllClauseNames |-> 0]
 
